@@ -1,13 +1,14 @@
 #!/bin/bash
-# usage: try_mutation.sh <diff> <check-id>... ; applies the diff to /repo, runs the quick checks, reverts.
-diff=$1; shift
-cd /repo || exit 2
-if [ -n "$(git status --porcelain -- src)" ]; then echo "repo dirty"; exit 2; fi
-git apply "$diff" || { echo "apply failed"; exit 2; }
-trap 'git -C /repo checkout -- . ' EXIT
+# usage: try_mutation.sh <diff> <check-id>...
+# Applies the diff in a throw-away worktree of /repo (outside /repo and /verif), runs the quick checks against it
+# (VERIF_REPO), removes the worktree.  Prints one summary line per check.
+diff=$(realpath "$1"); shift
+wt=/var/tmp/mutwt-$$
+git -C /repo worktree add -q --detach "$wt" HEAD || exit 2
+trap 'git -C /repo worktree remove --force "$wt" >/dev/null 2>&1' EXIT
+( cd "$wt" && git apply "$diff" ) || { echo "apply failed: $diff"; exit 2; }
 for id in "$@"; do
-  out=$(cd /verif && ./check "$id" 2>&1); rc=$?
-  echo "== $id rc=$rc: $(echo "$out" | grep -c '^VIOLATION') violations"
-  echo "$out" | grep -A1 '^VIOLATION' | head -6
+  out=$(cd /verif && VERIF_REPO="$wt" VERIF_SCRATCH=/var/tmp ./check "$id" 2>&1); rc=$?
+  echo "== $(basename $(dirname $diff))/$(basename $diff) $id rc=$rc violations=$(echo "$out" | grep -c '^VIOLATION') :: $(echo "$out" | grep -A1 '^VIOLATION' | sed -n 2p | cut -c1-260)"
   echo "$out" | grep 'MACHINERY' | head -3
 done
